@@ -553,6 +553,42 @@ pub proof fn lemma_canonical_lex_ascending(k: CoseKey, m: Seq<(Value, Value)>)
         }
     }
 }
+pub open spec fn key_sorted_len_first(k: CoseKey) -> bool {
+    forall |i: int, j: int| 0 <= i < j < k.params@.len() ==> !(crate::common::len_first_bytes_cmp(
+        crate::vprelude::enc(crate::common::label_cv((#[trigger] k.params@[i]).0)), crate::vprelude::enc(crate::common::label_cv((#[trigger] k.params@[j]).0))) is Greater)
+}
+pub open spec fn key_texts_small(k: CoseKey) -> bool { forall |j: int| 0 <= j < k.params@.len() ==> crate::vcbor::small(utf8(crate::vcbor::label_text((#[trigger] k.params@[j]).0))) }
+pub proof fn lemma_canonical_len_first_ascending(k: CoseKey, m: Seq<(Value, Value)>)
+    requires key_mem_wf(k), key_no_label0(k), key_sorted_len_first(k), key_texts_small(k), key_enc_ok(k, m),
+    ensures
+        forall |i: int| 0 <= i < m.len() ==> (#[trigger] label_of(m[i].0)) is Some,
+        forall |i: int, j: int| 0 <= i < j < m.len() ==>
+            crate::vcbor::len_first_cmp(crate::vcbor::enc_label((#[trigger] label_of(m[i].0))->0), crate::vcbor::enc_label((#[trigger] label_of(m[j].0))->0)) is Less,
+{
+    lemma_enc_labels(k, m);
+    let o_p = key_enc_off_p(k);
+    assert forall |i: int, j: int| 0 <= i < j < m.len() implies
+            crate::vcbor::len_first_cmp(crate::vcbor::enc_label((#[trigger] label_of(m[i].0))->0), crate::vcbor::enc_label((#[trigger] label_of(m[j].0))->0)) is Less by {
+        let li = label_of(m[i].0)->0; let lj = label_of(m[j].0)->0;
+        if i >= o_p {
+            let a = k.params@[i - o_p].0; let b = k.params@[j - o_p].0;
+            assert(label_of(m[i].0) == Some(a)); assert(label_of(m[j].0) == Some(b));
+            assert(a != b);
+            crate::vcbor::lemma_cmp_canonical_is_len_first(a, b);
+            if crate::vcbor::len_first_cmp(crate::vcbor::enc_label(a), crate::vcbor::enc_label(b)) is Equal { crate::vcbor::lemma_len_first_equal_is_same(a, b); }
+        } else if j >= o_p {
+            assert(label_of(m[j].0) == Some(k.params@[j - o_p].0));
+            assert(is_typed_key_label(li));
+            crate::vcbor::lemma_len_first_typed_before_extra(li->Int_0, lj);
+        } else {
+            assert(is_typed_key_label(li) && is_typed_key_label(lj));
+            let a = li->Int_0; let b = lj->Int_0;
+            crate::vcbor::lemma_enc_label_small_int(a); crate::vcbor::lemma_enc_label_small_int(b);
+            assert(a < b);
+            reveal_with_fuel(lex_cmp, 2);
+        }
+    }
+}
 pub open spec fn key_view_eq(a: CoseKey, b: CoseKey) -> bool {
     a.kty == b.kty && a.key_id@ == b.key_id@ && a.alg == b.alg && a.key_ops@ == b.key_ops@ && a.base_iv@ == b.base_iv@ && a.params@ == b.params@
 }
